@@ -148,8 +148,9 @@ Proof. reflexivity. Qed.
 (* ---- 4b. CSV/TSV input: $i after `getline var` (was finding F-C02-8, repaired) ------------------ *)
 
 (* whatever sequence of records read by the main loop, records read by `getline var` /
-   `getline arr[k]`, uses of NF and reads of $i happens in CSV/TSV input mode, getField never
-   indexes p.fieldsIsTrueStr out of range *)
+   `getline arr[k]`, uses of NF, reads of $i and changes of INPUTMODE in the middle of the stream
+   happens on a stream opened in CSV/TSV input mode (its splitter is fixed when the scanner is
+   created), getField never indexes p.fieldsIsTrueStr out of range *)
 Theorem C02_csv_fields_never_panic : forall ops, f_run fs_init ops <> None.
 Proof. exact csv_fields_never_panic. Qed.
 Print Assumptions C02_csv_fields_never_panic.
@@ -161,6 +162,12 @@ Print Assumptions C02_getline_var_keeps_fields.
 
 (* the former witness: BEGIN { n = NF; getline x; print $1 } with a three-field first record *)
 Example C02_csv_former_witness : f_run fs_init [ONF; OGetlineVar 3; OField 1] <> None.
+Proof. discriminate. Qed.
+
+(* NR == 1 { INPUTMODE = ""; n = NF; getline x; print $3 } on "p,q" / "a,b,c": the CSV scanner
+   outlives the switch to default mode; getline restores p.fields whatever the current mode *)
+Example C02_csv_mode_switch_witness :
+  f_run fs_init [ORecord 2 1; OSetMode false; ONF; OGetlineVar 3; OField 3] <> None.
 Proof. discriminate. Qed.
 
 (* ---- non-vacuity ---------------------------------------------------------------------------- *)
